@@ -207,6 +207,62 @@ def getSampleW (vin : List τ) (w : List α) (k : Nat) (replace : Bool) (draws :
       | .error e => .error e
       | .ok ps => selectBy vin ps
 
+/-! ### the law of a weighted pick as an executable predicate
+
+"Follows the given weights" for one pick: the element returned is the one whose *weight interval*,
+normalised by the total `S = Σw`, contains the uniform draw `u`:
+`c_{i-1}/S ≤ u < c_i/S` with `c = cumSum w`, `c_{-1} = 0`.  The intervals of the positions partition
+`[0, 1)` and the one of position `i` has length `wᵢ/S` (`BppProofs/Props/C18.lean`:
+`inWeightInterval_iff`, `weighted_pick_interval_length`), so a sampler all of whose picks satisfy
+this predicate on uniform draws follows the weights.  The predicate does not search: it is a
+specification, evaluated by the driver on the implementation's recorded draws and proved of the
+model for all draws. -/
+
+/-- `u` lies in the weight interval of position `i` -/
+def inWeightInterval (w : List α) (u : α) (i : Nat) : Bool :=
+  let c := cumSum w
+  match c.getLast?, c[i]? with
+  | some S, some ci =>
+    match i with
+    | 0 => Scalar.leb (Scalar.ofInt 0 / S) u && Scalar.ltb u (ci / S)
+    | j + 1 =>
+      match c[j]? with
+      | some p => Scalar.leb (p / S) u && Scalar.ltb u (ci / S)
+      | none => false
+  | _, _ => false
+
+/-- the assumptions under which "follows the weights" means something: non-negative weights with a
+positive total -/
+def weightsOk (w : List α) : Bool :=
+  w.all (fun x => Scalar.leb (Scalar.ofInt 0) x) &&
+  (match (cumSum w).getLast? with
+   | some S => Scalar.ltb (Scalar.ofInt 0) S
+   | none => false)
+
+/-- `x` is the element (of `v`, with weights `w`) whose weight interval contains `u` -/
+def lawElem [BEq τ] (v : List τ) (w : List α) (u : α) (x : τ) : Bool :=
+  (List.range v.length).any (fun i => v[i]? == some x && inWeightInterval w u i)
+
+/-- every element of a weighted sample *with* replacement is the element whose weight interval
+contains its own uniform draw (one draw per element, in order) -/
+def lawSampleRepl [BEq τ] (v : List τ) (w : List α) : List α → List τ → Bool
+  | [], [] => true
+  | u :: us, x :: xs => lawElem v w u x && lawSampleRepl v w us xs
+  | _, _ => false
+
+/-- the same *without* replacement: each element is the one whose interval — among the elements
+still present, with their weights, in the order the code keeps them (`swapPop`) — contains its draw -/
+def lawSampleNoRepl [BEq τ] : List α → List τ → List τ → List α → Bool
+  | [], [], _, _ => true
+  | u :: us, x :: xs, v, w =>
+    (List.range v.length).any (fun i =>
+      v[i]? == some x && inWeightInterval w u i && lawSampleNoRepl us xs (swapPop v i) (swapPop w i))
+  | _, _, _, _ => false
+
+/-- number of strictly positive weights (a weighted sample without replacement of at most this
+size never meets an all-zero remainder) -/
+def nPositive (w : List α) : Nat := (w.filter (fun x => Scalar.ltb (Scalar.ofInt 0) x)).length
+
 /-- `size_t pickFromCumSum(const std::vector<double>& w)` (after `fix:` 57b79ce: an empty vector
 raises; before, `w.size()-1` wrapped and `w[0]` was read).  RandomTools.h:364-377 -/
 def pickFromCumSum (w : List α) (prob : α) : R Nat :=
